@@ -310,6 +310,10 @@ pub open spec fn fold_chain<F: Fn(u32, &u8) -> u32>(s: Seq<u8>, init: u32, f: F,
     &&& acc[0] == init
     &&& forall|i: int| 0 <= i < s.len() ==> f.ensures((#[trigger] acc[i], &s[i]), acc[i + 1])
 }
+/// XOR does not care about the order of its operands (bit-vector fact, so that the closure may be written either way round)
+pub broadcast proof fn lemma_xor_comm(a: u32, b: u32)
+    ensures #[trigger] (a ^ b) == b ^ a
+{ assert(a ^ b == b ^ a) by (bit_vector); }
 pub proof fn lemma_fold_is_xor<F: Fn(u32, &u8) -> u32>(s: Seq<u8>, f: F, acc: Seq<u32>, n: int)
     requires
         fold_chain(s, 0u32, f, acc), 0 <= n <= s.len(),
@@ -335,7 +339,9 @@ impl WalRecord {
 //@ensures
         r == ck(self.entry),      //#xor_of_the_entry_bytes
 //@replace "bytes.iter().fold(0u32, " => "it_fold(&bytes, 0u32, " :: provided Iterator method: routed through a wrapper whose body is the same expression
-//@closure it_fold#1 (acc: u32, b__r: &u8) -> (o: u32) ensures o == acc ^ (*b__r as u32)
+//@closure it_fold#1 (acc: u32, b__r: &u8) -> (o: u32) ensures o == (@BODY)
+//@atstart
+        broadcast use lemma_xor_comm;
 //@end
 
 //@fn WalRecord::new from=wal ret=r props=C15
@@ -716,10 +722,12 @@ impl Wal {
 //@before "match reader.read_exact(&mut len_bytes)"
             broadcast use axiom_question_mark;
             proof { lemma_record_fate(reader.all@, done, reader.pos@); }
-//@before "if record.sequence > last"
+//@after "let record: WalRecord"
             proof {
-                assert(done.push(record).drop_last() =~= done);
-                done = done.push(record);
+                if record.intact() {
+                    assert(done.push(record).drop_last() =~= done);
+                    done = done.push(record);
+                }
             }
 //@end
 
@@ -858,15 +866,17 @@ impl Wal {
                         },
                     }
                 }
-//@before "if record.sequence < from_sequence"
+//@after "let record: WalRecord"
                 proof {
-                    let ghost w = d0 + wanted(done, from_sequence);
-                    if record.sequence >= from_sequence {
-                        assert(d0 + wanted(done, from_sequence).push(record.entry) =~= w.push(record.entry));
-                        lemma_delivered_push(seen0, t.0, w, record.entry);
-                        assert((seen0 + w).push(record.entry) =~= seen0 + (d0 + wanted(done.push(record), from_sequence)));
+                    if record.intact() {
+                        let ghost w = d0 + wanted(done, from_sequence);
+                        if record.sequence >= from_sequence {
+                            assert(d0 + wanted(done, from_sequence).push(record.entry) =~= w.push(record.entry));
+                            lemma_delivered_push(seen0, t.0, w, record.entry);
+                            assert((seen0 + w).push(record.entry) =~= seen0 + (d0 + wanted(done.push(record), from_sequence)));
+                        }
+                        done = done.push(record);
                     }
-                    done = done.push(record);
                 }
 //@afterloop 2
             proof {
